@@ -1,19 +1,140 @@
 package main
 
 import (
+	"encoding/hex"
+	"fmt"
+	"math"
+	"math/big"
 	"math/rand"
+	"strconv"
 	"strings"
+
+	"src.elv.sh/pkg/eval/vals"
 )
+
+// isRep: every representative string of a class; poolImage: float64 images of the pool numbers
+// (filled by initAtoms) -- dynamic atoms keep clear of both.
+var isRep = map[string]bool{}
+var poolImage = map[uint64]bool{}
 
 // gen draws random abstract values (depth <= 5, width <= 8).  It only chooses inputs: whether a
 // drawn value is well-formed (keys of a map pairwise unrelated) is re-checked by JudgeRepr
 // (Valid), an ill-formed value is a machinery error.
-type gen struct{ rnd *rand.Rand }
+type gen struct {
+	rnd  *rand.Rand
+	dstr map[string]string // dynamic atoms of the value being drawn
+	dnum map[string]string
+	seen map[string]bool
+}
+
+// takeDyn returns and resets the dynamic atom tables of the value drawn last.
+func (g *gen) takeDyn() (map[string]string, map[string]string) {
+	ds, dn := g.dstr, g.dnum
+	g.dstr, g.dnum, g.seen = nil, nil, nil
+	return ds, dn
+}
+
+// dynStr draws a random byte string (adversarial alphabet) as a new string atom "d:<n>".
+func (g *gen) dynStr() AVal {
+	alphabet := []string{"a", "b", "Z", "0", "9", " ", "'", "\"", "\\", "\t", "\n", "\r", "$", "~", "&", "=", "[", "]", "{", "}", "(", ")", "|", ";", "#", "*", "?", "<", ">", "`", ",", "^", ".", "-", "+", "/", ":", "%", "@", "!",
+		"\x00", "\x1b", "\x7f", "\xff", "\xc3", "\xe4\xbd", "é", "你", "😀", "\u200b", "\u00a0", "\ufffd", "\u2028"}
+	for {
+		n := 1 + g.rnd.Intn(6)
+		s := ""
+		for i := 0; i < n; i++ {
+			s += alphabet[g.rnd.Intn(len(alphabet))]
+		}
+		if g.seen["s"+s] || isRep[s] {
+			continue
+		}
+		if g.dstr == nil {
+			g.dstr, g.seen = map[string]string{}, orMap(g.seen)
+		}
+		g.seen["s"+s] = true
+		name := fmt.Sprintf("d:%d", len(g.dstr)+1)
+		g.dstr[name] = hex.EncodeToString([]byte(s))
+		return atom("str", name)
+	}
+}
+
+func orMap(m map[string]bool) map[string]bool {
+	if m == nil {
+		return map[string]bool{}
+	}
+	return m
+}
+
+// dynNum draws a random number text for the real constructor as a new number atom "n:<n>".
+// Values within one case have pairwise different float64 images (so no two of them tie in the
+// numeric order) and differ from every pool atom.
+func (g *gen) dynNum() AVal {
+	for {
+		var t string
+		switch g.rnd.Intn(8) {
+		case 0: // machine int
+			t = strconv.FormatInt(g.rnd.Int63n(1<<62)-(1<<61), 10)
+		case 1: // small int
+			t = strconv.Itoa(g.rnd.Intn(2000) - 1000)
+		case 2: // big int
+			b := new(big.Int).Lsh(big.NewInt(1), uint(63+g.rnd.Intn(100)))
+			b.Add(b, big.NewInt(g.rnd.Int63n(1000)))
+			if g.rnd.Intn(2) == 0 {
+				b.Neg(b)
+			}
+			t = b.String()
+		case 3: // rational
+			t = fmt.Sprintf("%d/%d", g.rnd.Intn(2000)-1000, 2+g.rnd.Intn(1000))
+		case 4: // float, random bits
+			f := math.Float64frombits(g.rnd.Uint64())
+			if math.IsNaN(f) || math.IsInf(f, 0) {
+				continue
+			}
+			t = strconv.FormatFloat(f, 'g', 17, 64)
+		case 5: // integer-valued float with 1..22 digits
+			d := 1 + g.rnd.Intn(22)
+			f := math.Trunc(math.Pow(10, float64(d-1)) * (1 + 9*g.rnd.Float64()))
+			if g.rnd.Intn(3) == 0 {
+				f = math.Pow(10, float64(d-1))
+			}
+			t = strconv.FormatFloat(f, 'e', -1, 64)
+		case 6: // small-magnitude float around the 0.0001 threshold
+			t = strconv.FormatFloat(math.Pow(10, float64(-1-g.rnd.Intn(8)))*(1+9*g.rnd.Float64()), 'g', -1, 64)
+		default: // short decimal
+			t = strconv.FormatFloat(float64(g.rnd.Intn(2_000_000)-1_000_000)/1000, 'f', -1, 64)
+			if !strings.Contains(t, ".") {
+				t += ".0"
+			}
+		}
+		x := vals.ParseNum(t)
+		if x == nil {
+			continue
+		}
+		img := vals.ConvertToFloat64(x)
+		key := "n" + strconv.FormatUint(math.Float64bits(img), 16)
+		if img == 0 || img == 1 || math.Abs(img) == 0.5 || g.seen[key] || poolImage[math.Float64bits(img)] {
+			continue
+		}
+		if g.dnum == nil {
+			g.dnum = map[string]string{}
+		}
+		g.seen = orMap(g.seen)
+		g.seen[key] = true
+		name := fmt.Sprintf("n:%d", len(g.dnum)+1)
+		g.dnum[name] = t
+		return atom("dnum", name)
+	}
+}
 
 var keyAtoms = []AVal{atom("num", "i:0"), atom("num", "f:+0.0"), atom("num", "f:-0.0"), atom("num", "i:1"), atom("num", "f:1.0"),
 	atom("num", "f:NaN"), atom("str", "s:numlike"), atom("str", "s:empty"), atom("nil", "nil"), atom("num", "i:2^63"), atom("num", "f:2^63")}
 
 func (g *gen) atom() AVal {
+	switch g.rnd.Intn(10) {
+	case 0, 1:
+		return g.dynNum()
+	case 2:
+		return g.dynStr()
+	}
 	n := 3 + len(strClasses) + len(numAtoms)
 	i := g.rnd.Intn(n)
 	switch {
